@@ -83,7 +83,20 @@ Theorem C15_snooze_moves_trigger : forall o x,
 Proof. exact snooze_moves_trigger. Qed.
 Print Assumptions C15_snooze_moves_trigger.
 
+(* a floating trigger takes the local zone keeping its wall clock (zoneinfo zone objects) *)
+Theorem C15_localize_keeps_wall : forall o L s, zfix L = None ->
+  localize o (Some L) (Naive s) = SOk (Zoned L s).
+Proof. exact localize_keeps_wall. Qed.
+Print Assumptions C15_localize_keeps_wall.
+
 (* outside the guards the property fails -- the known findings *)
+(* C15-F3: under pytz the local zone is attached with replace(tzinfo=...), i.e. with the zone's
+   first (LMT) offset, and normalize() then moves the wall clock: 10:00 becomes 10:07 *)
+Theorem C15_localize_pytz_refuted : exists o L s t,
+  localize o (Some L) (Naive s) = SOk t /\ wall t <> s.
+Proof. exact localize_pytz_refuted. Qed.
+Print Assumptions C15_localize_pytz_refuted.
+
 (* C15-F1: a date-valued trigger (all-day start, whole-day relative trigger): is_active raises
    AttributeError, .trigger with a snooze raises TypeError, and setting a local zone makes
    Alarms.times itself raise TypeError *)
